@@ -139,12 +139,28 @@ pub fn replay_w(edges: &str, out: &str) -> std::io::Result<()> {
 pub struct TraceOut {
     pub f: std::io::BufWriter<std::fs::File>,
     pub events: u64,
+    /// when set, every event is stamped with "fic": did an injected device fault fire since the
+    /// previous event (i.e. during the call this event records)
+    pub watch: Option<Dev>,
+    pub last_faulted: bool,
+    /// keep a copy of the events in memory (used by the fault sweeps)
+    pub keep: Option<Vec<Value>>,
 }
 impl TraceOut {
     pub fn create(path: &str) -> std::io::Result<Self> {
-        Ok(TraceOut { f: std::io::BufWriter::new(std::fs::File::create(path)?), events: 0 })
+        Ok(TraceOut { f: std::io::BufWriter::new(std::fs::File::create(path)?), events: 0, watch: None, last_faulted: false, keep: None })
     }
-    pub fn ev(&mut self, v: Value) {
+    pub fn ev(&mut self, mut v: Value) {
+        if let Some(d) = &self.watch {
+            let now = d.faulted();
+            if v.get("fic").is_none() {
+                v["fic"] = json!(if now && !self.last_faulted { 1 } else { 0 });
+            }
+            self.last_faulted = now;
+        }
+        if let Some(k) = &mut self.keep {
+            k.push(v.clone());
+        }
         writeln!(self.f, "{}", v).expect("write trace");
         self.events += 1;
     }
